@@ -198,6 +198,23 @@ class Walker:
         self._prom_cache[idx] = val
         return val
 
+    def _mutable_root(self, t):
+        """Is the place term rooted in a parameter/local that gives mutable
+        access to shared memory (RefCell, RefMut, &mut, raw pointer)?"""
+        if t and t[0] == "neq":
+            t = t[1]
+        x = t
+        depth = 0
+        while isinstance(x, tuple) and x and x[0] in ("field", "index", "clone") and depth < 64:
+            x = x[1]
+            depth += 1
+        if x is t:
+            return False      # a bare value (parameter, call result), not a memory place
+        if isinstance(x, tuple) and x and x[0] == "param":
+            ty = self.body.locals[x[1]]["s"]
+            return ("RefCell<" in ty) or ("RefMut<" in ty) or ty.startswith("&mut") or ty.startswith("*mut")
+        return False
+
     def _local(self, env, l):
         if l in env:
             return env[l]
@@ -407,6 +424,12 @@ class Walker:
                 else:
                     res = ("call", name, args, site)
                 ev["result"] = res
+                if decl not in self.transparent and decl not in CLONE and not name.startswith("std::") \
+                        and not name.startswith("<std::") and not name.startswith("core::"):
+                    # a call into the crate may write, through RefCell / &mut, the memory behind
+                    # interior-mutable roots: forget what was known about such places
+                    refine = {k2: v2 for k2, v2 in refine.items() if not self._mutable_root(k2)}
+                    mem = {k2: v2 for k2, v2 in mem.items() if not self._mutable_root(k2)}
                 if t["target"] is None:
                     out.append(Path(blocks, events, refine, ("diverge", name), None, env, decisions))
                     self.npaths += 1
@@ -447,7 +470,12 @@ class Walker:
     def _switch(self, t, d, bb, env, mem, refine, events, decisions, blocks, visits, stack):
         targets = t["targets"]
         otherwise = t["otherwise"]
-        push = lambda tgt, rf, dec: stack.append((tgt, env, mem, rf, events, dec, blocks, visits))
+        def push(tgt, rf, dec):
+            evs = events
+            if len(dec) > len(decisions):
+                c, v, b = dec[-1]
+                evs = events + [{"k": "branch", "cond": c, "value": v, "bb": b, "line": t["line"]}]
+            stack.append((tgt, env, mem, rf, evs, dec, blocks, visits))
         if d[0] == "const" and d[3] is not None:
             for v, tgt in targets:
                 if v == d[3]:
@@ -495,8 +523,19 @@ class Walker:
                 push(otherwise, rf, decisions + [(("variant", placet), tuple(sorted(rest)), bb)])
             return
         # boolean / integer condition
-        for (c, val, _) in decisions:
-            if c == d:
+        def stable_since(bb0):
+            # the earlier evaluation is still valid if nothing that may write memory happened since
+            seen = False
+            for e in events:
+                if not seen:
+                    if e["k"] == "branch" and e["bb"] == bb0 and e["cond"] == d:
+                        seen = True
+                    continue
+                if e["k"] == "write" or (e["k"] == "call" and e["decl"] not in self.transparent and e["decl"] not in CLONE):
+                    return False
+            return seen
+        for (c, val, b0) in decisions:
+            if c == d and stable_since(b0):
                 # same evaluation already decided on this path
                 for v, tgt in targets:
                     if v == val:
@@ -532,6 +571,11 @@ class Walker:
         if d[0] != "call":
             return None
         nm = d[1]
+        if nm.endswith("Option::<T>::is_some") or nm.endswith("Option::<T>::is_none"):
+            if nm.endswith("is_none"):
+                neg = not neg
+            # is_some(x): x is Some  (negated: x is not Some, i.e. None)
+            return (d[2][0], "std::option::Option", "Some", neg, ("Some", "None"))
         if not (nm.endswith("::eq") or nm.endswith("::ne")):
             return None
         if nm.endswith("::ne"):
@@ -539,13 +583,17 @@ class Walker:
         a, b = (d[2] + (None, None))[:2]
         for x, y in ((a, b), (b, a)):
             if isinstance(y, tuple) and y[0] == "agg" and y[2] and not y[3] and isinstance(x, tuple) and x[0] != "agg":
-                return (x, y[1], y[2], neg)
+                return (x, y[1], y[2], neg, None)
         return None
 
     def _apply_eq(self, refine, eqref, truth):
-        x, adt, variant, neg = eqref
+        x, adt, variant, neg, universe = eqref
         holds = truth != neg  # x == variant holds?
         known = refine.get(x)
+        if known is None and x[0] == "agg" and x[2]:
+            known = frozenset([x[2]])
+        if known is None and universe is not None:
+            known = frozenset(universe) - refine.get(("neq", x), frozenset())
         rf = dict(refine)
         if holds:
             if known is not None and variant not in known:
